@@ -26,6 +26,12 @@ CLAIMS = {
  "C03": dict(cat="other", design="DESIGN.md §3 C03",
    text="Every PartialEq comparison in verify_digests is classified by the tag getter feeding its declared side and a provenance term of the recomputed side (algorithm, hashed byte ranges in order); polarity, the mismatch edge's error, must-pass-through of the equal edge when the tag is present, the algorithm arm table and the closed set of error exits are decided on the CFG. Decides the structure of the iff for all packages; digest values are not computed.",
    technique="provenance terms + CFG must-pass-through / edge-removal reachability + arm tables"),
+ "C08": dict(cat="other", design="DESIGN.md §3 C08",
+   text="Provenance terms for every digest-carrying value on the build/sign/clear paths are compared with the oracle table (header SHA-256 of the very header stored, payload digest of the returned payload, alternate digest of the hashing writer around the compressor, file digest of the stored content); who-may-write rules ensure all archive bytes (entries and trailer) pass the hashing writer and nothing else writes into the compressor; the hashing io::Write adapter must hash exactly buf[..n] for the n the inner writer accepted and return that n. Decides provenance and ordering for all configurations, not digest values.",
+   technique="provenance terms + who-may-write (mutable-borrow audit) + adapter dataflow rule"),
+ "C10": dict(cat="other", design="DESIGN.md §3 C10",
+   text="Effect footprint of sign/sign_with_timestamp/clear_signatures (every assignment and mutable borrow rooted at self) is exactly {metadata.signature}; the new signature header's provenance is SignatureHeaderBuilder::new() plus digest (plus the fresh signature) with nothing of the old header; the OpenPGP-algorithm -> legacy tag arm table and the issuer-count guard's operand provenance in signature_key_ids (both branches) are checked. These make header/payload immutable under any history and forbid stale signatures; which key verifies is a runtime/crypto question and is not decided.",
+   technique="effect-footprint analysis + provenance terms + arm-table extraction"),
 }
 
 NA = {
